@@ -165,7 +165,12 @@ func Fingerprint(r *Result) string {
 	if r.Journal != nil {
 		jb, _ := json.Marshal(r.Journal)
 		// created-file real paths carry the worker directory
-		sb.Write(regexp.MustCompile(`"real":"[^"]*"`).ReplaceAll(jb, []byte(`"real":"X"`)))
+		jb = regexp.MustCompile(`"real":"[^"]*"`).ReplaceAll(jb, []byte(`"real":"X"`))
+		// the memory-traffic counters of the Go runtime are not part of the
+		// simulated execution (they differ by a few kilobytes with GOMAXPROCS and
+		// garbage-collection timing); their spread is reported separately
+		jb = regexp.MustCompile(`"alloc_bytes":\d+,"mallocs":\d+`).ReplaceAll(jb, []byte(`"alloc_bytes":0,"mallocs":0`))
+		sb.Write(jb)
 	}
 	names := make([]string, 0, len(r.Created))
 	for n := range r.Created {
@@ -177,6 +182,11 @@ func Fingerprint(r *Result) string {
 	}
 	return sb.String()
 }
+
+// AllocSpread: the largest relative difference of the bytes-allocated counter
+// between two executions of one scenario seen by the last self-test (the
+// growth rule compares ratios around 4 against a limit of 9).
+var AllocSpread float64
 
 // DeterminismSelfTest executes n scenarios (drawn from the C12/C09/C04
 // generators, simulated steps only) six times each: twice at GOMAXPROCS 1, 4
@@ -212,6 +222,7 @@ func DeterminismSelfTest(env *Env, seed uint64, n int) (bad, total int, err erro
 		go func() {
 			defer wg.Done()
 			var ref string
+			var allocRef float64
 			for k, gmp := range []int{1, 1, 4, 4, 16, 16} {
 				s := steps[i]
 				s.GoMaxProcs = gmp
@@ -225,6 +236,20 @@ func DeterminismSelfTest(env *Env, seed uint64, n int) (bad, total int, err erro
 					}
 					mu.Unlock()
 					return
+				}
+				if r.Journal != nil && r.Journal.AllocBytes > 0 {
+					a := float64(r.Journal.AllocBytes)
+					if k%2 == 0 {
+						allocRef = a // pairs of executions at the same GOMAXPROCS
+					} else if allocRef > 8<<20 {
+						d := (a - allocRef) / allocRef
+						if d < 0 {
+							d = -d
+						}
+						if d > AllocSpread {
+							AllocSpread = d
+						}
+					}
 				}
 				fp := Fingerprint(r)
 				if r.Crash() != "" {
